@@ -101,29 +101,38 @@ deriving Repr, Inhabited
 /-- `readFull(p)` with `len(p) = k`, including the `fill` calls it makes. -/
 def readFullB (k : Nat) (b : BufSt) : Except RdStop Bytes × BufSt :=
   if k = 0 then (.ok [], b)
-  else match hp : b.pending with
-    | x :: xs =>
-      let c := (x :: xs).take k
-      let b' := { b with pending := (x :: xs).drop k, n := b.n + c.length }
-      match readFullB (k - c.length) b' with
-      | (.ok rest, b'') => (.ok (c ++ rest), b'')
-      | (.error e, b'') => (.error e, b'')
-    | [] =>
-      if b.limit ≤ b.n then (.error .limit, b)
-      else
-        let want := min bufSize (b.limit - b.n)
-        match b.r.read want with
-        | ([], err, r') => (.error (match err with | some .fault => .fault | _ => .eof), { b with r := r' })
-        | (y :: ys, _, r') => readFullB k { b with r := r', pending := y :: ys }
+  else if hp : b.pending ≠ [] then
+    -- copy from the buffer
+    let c := b.pending.take k
+    let r := readFullB (k - c.length) { b with pending := b.pending.drop k, n := b.n + c.length }
+    match r.1 with
+    | .ok rest => (.ok (c ++ rest), r.2)
+    | .error e => (.error e, r.2)
+  else if b.limit ≤ b.n then (.error .limit, b)      -- fill: "requested data beyond data size"
+  else
+    -- fill: one Read of at most min(4096, limit - n) bytes
+    let res := b.r.read (min bufSize (b.limit - b.n))
+    if hr : res.1.isEmpty then
+      (.error (match res.2.1 with | some .fault => .fault | _ => .eof), { b with r := res.2.2 })
+    else readFullB k { b with r := res.2.2, pending := res.1 }
 termination_by (k, if b.pending.isEmpty then 1 else 0)
 decreasing_by
   · apply Prod.Lex.left
-    have : 0 < (List.take k (x :: xs)).length := by
-      simp only [List.length_take, List.length_cons]; omega
+    have : 0 < (List.take k b.pending).length := by
+      cases hb : b.pending with
+      | nil => exact absurd hb hp
+      | cons x xs => simp only [List.length_take, List.length_cons]; omega
     omega
-  · rw [hp]
+  · have hp' : b.pending = [] := by
+      cases hb : b.pending with
+      | nil => rfl
+      | cons x xs => rw [hb] at hp; simp at hp
+    rw [hp']
     apply Prod.Lex.right
-    simp
+    simp only [List.isEmpty_nil, ↓reduceIte]
+    cases hres : (b.r.read (min bufSize (b.limit - b.n))).1 with
+    | nil => exact absurd hres (by simpa using hr)
+    | cons _ _ => simp
 
 /-- `io.ReadFull` on the reader itself: loop until `k` bytes or the reader stops. -/
 def readDirectB (fuel : Nat) (k : Nat) (r : Reader) (acc : Bytes) : Except (Nat × Stop) Bytes × Reader :=
@@ -131,9 +140,9 @@ def readDirectB (fuel : Nat) (k : Nat) (r : Reader) (acc : Bytes) : Except (Nat 
   else match fuel with
     | 0 => (.error (acc.length, r.stop), r)   -- unreachable: every Read delivers ≥ 1 byte or stops
     | fuel + 1 =>
-      match r.read k with
-      | ([], err, r') => (.error (acc.length, (err.getD .eof)), r')
-      | (bs, _, r') => readDirectB fuel (k - bs.length) r' (acc ++ bs)
+      let res := r.read k
+      if res.1.isEmpty then (.error (acc.length, (res.2.1.getD .eof)), res.2.2)
+      else readDirectB fuel (k - res.1.length) res.2.2 (acc ++ res.1)
 
 /-- `io.CopyN`: reads of at most `min 32768 remaining` bytes until `k` bytes are copied. -/
 def copyNB (fuel : Nat) (k : Nat) (r : Reader) (acc : Bytes) : Except Stop Bytes × Reader :=
@@ -141,12 +150,12 @@ def copyNB (fuel : Nat) (k : Nat) (r : Reader) (acc : Bytes) : Except Stop Bytes
   else match fuel with
     | 0 => (.error r.stop, r)
     | fuel + 1 =>
-      match r.read (min copyBufSize k) with
-      | ([], err, r') => (.error (err.getD .eof), r')
-      | (bs, some .fault, r') =>
+      let res := r.read (min copyBufSize k)
+      if res.1.isEmpty then (.error (res.2.1.getD .eof), res.2.2)
+      else if res.2.1 = some .fault then
         -- bytes delivered together with a non-EOF error: copied, then the error is returned
-        if bs.length = k then (.ok (acc ++ bs), r') else (.error .fault, r')
-      | (bs, _, r') => copyNB fuel (k - bs.length) r' (acc ++ bs)
+        if res.1.length = k then (.ok (acc ++ res.1), res.2.2) else (.error .fault, res.2.2)
+      else copyNB fuel (k - res.1.length) res.2.2 (acc ++ res.1)
 
 def runBufferedT {α} : TProg α → Reader → α × Reader
   | .done a, r => (a, r)
@@ -183,6 +192,7 @@ structure SpecSt where
   rest : Bytes
   stop : Stop
   taken : Nat
+  frameEnd : Nat := 0     -- ghost: position where the data area ends, once the header is read
 deriving Repr, Inhabited
 
 def runSpecT {α} : TProg α → SpecSt → α × SpecSt
@@ -209,10 +219,11 @@ def runSpec {α} : HProg α → SpecSt → α × SpecSt
     if k ≤ s.rest.length then
       runSpec (cont (s.rest.take k)) { s with rest := s.rest.drop k, taken := s.taken + k }
     else (onErr s.rest.length s.stop, { s with rest := [], taken := s.taken + s.rest.length })
-  | .data limit p, s => runSpecD limit p 0 s
+  | .data limit p, s => runSpecD limit p 0 { s with frameEnd := s.taken + limit }
   | .copyAll limit onErr cont, s =>
     if limit ≤ s.rest.length then
-      runSpecT (cont (s.rest.take limit)) { s with rest := s.rest.drop limit, taken := s.taken + limit }
-    else (onErr s.stop, { s with rest := [], taken := s.taken + s.rest.length })
+      runSpecT (cont (s.rest.take limit))
+        { s with rest := s.rest.drop limit, taken := s.taken + limit, frameEnd := s.taken + limit }
+    else (onErr s.stop, { s with rest := [], taken := s.taken + s.rest.length, frameEnd := s.taken + limit })
 
 end Fit
